@@ -29,6 +29,8 @@ class InjectedBase(BaseException):
 
 
 def boom(flt):
+    if flt.get('kind') == 'kill':
+        os.kill(os.getpid(), signal.SIGKILL)      # only used when the tagger runs in a forked child
     if flt.get('kind') in ('base', 'base_partial'):
         raise InjectedBase('injected at %s' % flt['point'])
     raise Injected('injected at %s' % flt['point'])
@@ -387,9 +389,34 @@ def run_tagger(tm, case, d, out, faults):
     old_handler = signal.signal(signal.SIGALRM, on_alarm)
     signal.alarm(CASE_TIMEOUT)
     try:
-        with contextlib.redirect_stdout(buf), contextlib.redirect_stderr(buf):
-            tm.run_multiome_tagging_cmd(command(case, inp, out))
-        raised = 0
+        if any(f.get('kind') == 'kill' for f in faults):
+            # SIGKILL sample: the tagger runs in a forked child that kills itself at the fault point
+            sys.stdout.flush()
+            pid = os.fork()
+            if pid == 0:
+                global MAIN_PID
+                MAIN_PID = os.getpid()     # the child is the tagger's main process
+                os.setpgid(0, 0)           # own process group: its pool workers are reaped below
+                try:
+                    with contextlib.redirect_stdout(buf), contextlib.redirect_stderr(buf):
+                        tm.run_multiome_tagging_cmd(command(case, inp, out))
+                except BaseException:
+                    os._exit(3)
+                os._exit(0)
+            _, wst = os.waitpid(pid, 0)
+            try:
+                os.killpg(pid, signal.SIGKILL)   # orphaned pool workers of the killed tagger
+            except OSError:
+                pass
+            if os.WIFSIGNALED(wst):
+                raised, err = 2, 'killed by signal %d (injected)' % os.WTERMSIG(wst)
+                STATE['fired'].append('kill')
+            else:
+                raised, err = (0, None) if os.WEXITSTATUS(wst) == 0 else (1, 'child raised')
+        else:
+            with contextlib.redirect_stdout(buf), contextlib.redirect_stderr(buf):
+                tm.run_multiome_tagging_cmd(command(case, inp, out))
+            raised = 0
     except HarnessTimeout as e:
         raised, err = 3, 'HANG: %s' % e
     except InjectedBase as e:
